@@ -50,7 +50,7 @@ pub fn emit_wrappers(all: &[GShape], out_dir: &str, tier: &str) {
         Fam { prop: "c07", body: "c07", batch: 4, kind: "V", timeout: 1800, mem: 4, quick_keep: 750 },
         Fam { prop: "c09", body: "c09", batch: 8, kind: "W", timeout: 1500, mem: 4, quick_keep: 1000 },
         Fam { prop: "c17", body: "c17", batch: 8, kind: "W", timeout: 1500, mem: 4, quick_keep: 1000 },
-        Fam { prop: "c13", body: "c13", batch: 6, kind: "W", timeout: 1500, mem: 4, quick_keep: 350 },
+        Fam { prop: "c13", body: "c13", batch: 6, kind: "W", timeout: 1500, mem: 4, quick_keep: 300 },
     ];
     let mut src = String::from("// generated - do not edit\n#![allow(clippy::all)]\nuse super::shapes::*;\n");
     for f in &fams {
